@@ -5,6 +5,7 @@ import (
 	"errors"
 	"fmt"
 	"strings"
+	"sync/atomic"
 	"unicode"
 	"unicode/utf8"
 
@@ -87,7 +88,9 @@ type g7Enc struct {
 func g7Encode(s string) g7Enc {
 	var out []byte
 	var err error
-	if p, msg := guard(func() { out, err = gsm7bit.Packed.NewEncoder().Bytes([]byte(s)) }); p {
+	if hung, p, msg := g7Watch("enc/Bytes", func() { out, err = gsm7bit.Packed.NewEncoder().Bytes([]byte(s)) }); hung {
+		return g7Enc{5, nil, msg}
+	} else if p {
 		return g7Enc{2, nil, msg}
 	} else if err != nil {
 		return g7Enc{1, nil, err.Error()}
@@ -157,7 +160,17 @@ type c08 struct {
 	r     *Run
 	seen  map[string]bool
 	nAmb  int
-	nCase int
+	nCase  int
+	nEntry int
+	xl    int  // for the next text: 0 no direct Transform calls, 2 a selection of destination sizes, 3 every size
+	ent   bool // for the next text: also String / Writer / Reader / a long-lived object
+}
+
+// textX is text with the Transformer contract (xl) and the other entry points (ent) switched on.
+func (c *c08) textX(rs []rune, bucket string, level, xl int, ent bool) {
+	c.xl, c.ent = xl, ent
+	c.text(rs, bucket, level)
+	c.xl, c.ent = 0, false
 }
 
 // text runs one text through encoder, decoder and detector: direct property
@@ -199,6 +212,10 @@ func (c *c08) text(rs []rune, bucket string, level int) {
 	if e.cls == 2 {
 		r.Fail("encode/panic", "Encoder.Bytes panicked", in, e.msg, "a value or an error")
 	}
+	if e.cls == 5 {
+		r.Fail("encode/never-returns", "Encoder.Bytes did not return", in, e.msg, "a value or an error")
+		return
+	}
 	if hasD16 {
 		// the text touches D16: judged by the dedicated single-character test only
 	} else if accepted && e.cls == 1 {
@@ -237,6 +254,9 @@ func (c *c08) text(rs []rune, bucket string, level int) {
 		dcls, d = g7Decode(e.out)
 		drs = d
 		switch {
+		case dcls == 5:
+			r.Fail("decode/never-returns", "Decoder.Bytes did not return on the encoder's output", in, fmt.Sprintf("octets %x", e.out), "a value or an error")
+			return
 		case dcls == 2:
 			r.Fail("decode/panic", "Decoder.Bytes panicked on the encoder's output", in, fmt.Sprintf("octets %x", e.out), "a value or an error")
 		case dcls == 1:
@@ -262,14 +282,59 @@ func (c *c08) text(rs []rune, bucket string, level int) {
 	if len(r.Samples) < 6 && len(rs) > 2 && accepted {
 		r.Sample(map[string]interface{}{"text": s, "septets": n, "octets": fmt.Sprintf("%x", e.out), "decoded": string(drs), "ambiguous": amb})
 	}
+	// the Transformer contract and the other entry points of the same objects
+	if c.xl > 0 && !hasD16 {
+		c.xfEnc(s, e, in, c.xl)
+		if e.cls == 0 && dcls == 0 && len(e.out) > 0 {
+			c.xfDec(e.out, dcls, []byte(string(drs)), in+fmt.Sprintf(" octets %x", g7clip(e.out)), c.xl)
+		}
+	}
+	if c.ent && !hasD16 {
+		c.entries("enc", []byte(s), g7Entry{e.cls, e.out, e.msg}, in, true, func(name string, got g7Entry) {
+			long := len(s) >= 4000 || len(e.out) >= 4000
+			switch {
+			case got.cls == 5:
+				r.Fail("entry/encode/"+name+"-never-returns", "an entry point of the Encoder did not return", in, got.msg, "what Bytes returns")
+			case got.cls == 2:
+				r.Fail("entry/encode/"+name+"-panics", "an entry point of the Encoder panicked", in, got.msg, "what Bytes returns")
+			case e.cls == 1 && got.cls == 0 && len(s) > 0:
+				r.Fail("entry/encode/"+name+"-accepts-what-Bytes-refuses", "a value where Bytes returns an error", in, fmt.Sprintf("%x", got.out), "error")
+			case e.cls == 0 && got.cls == 1 && !long:
+				r.Fail("entry/encode/"+name+"-fails-where-Bytes-succeeds", "an error where Bytes returns octets", in, got.msg, fmt.Sprintf("%x", e.out))
+			case e.cls == 0 && got.cls == 0 && !bytes.Equal(got.out, e.out):
+				r.Fail("entry/encode/"+name+"-differs-from-Bytes", "other octets than Bytes for the same text", in, fmt.Sprintf("%x", got.out), fmt.Sprintf("%x", e.out))
+			}
+		})
+		if e.cls == 0 && dcls == 0 && len(e.out) > 0 {
+			text := []byte(string(drs))
+			c.entries("dec", e.out, g7Entry{dcls, text, ""}, in+fmt.Sprintf(" octets %x", g7clip(e.out)), true, c.judgeDecEntry(in+fmt.Sprintf(" octets %x", g7clip(e.out)), e.out, dcls, text))
+		}
+	}
 	// destination capacities, including the exact fit that exposed D14
 	if e.cls != 0 || (amb && len(e.out) != (7*n+7)/8) {
 		return
 	}
 	need := len(e.out)
+	if level == 1 && c.xl == 0 {
+		// the exact fit into a destination the caller left full of 0xFF (D14 and the OR-ing packer in one call)
+		d0 := mkDst(need, 0xFF, r.Rng)
+		dst := append([]byte{}, d0...)
+		call := g7Xf("enc/Transform", gsm7bit.Packed.NewEncoder().Transformer, false, dst, []byte(s), true)
+		r.Count(fmt.Sprintf("xf/%s/%d/%d", s, need, 0xFF), len(rs) > 0, "encoder Transform, destination = need (exact fit), 0xFF")
+		c.judgeCall("encode", call, in+fmt.Sprintf(" len(dst)=%d dst pre-filled with 0xFF", need), len(s), need, need, true, e.out, true)
+		if call.cls != 5 && (call.cls != 3 || (call.nDst == 0 && call.nSrc == 0)) {
+			out := []byte{}
+			if call.cls == 0 && call.nDst >= 0 && call.nDst <= len(dst) {
+				out = dst[:call.nDst]
+			}
+			r.Case(fmt.Sprintf("enc Transform cap=%d fill=255 %s", need, in),
+				fmt.Sprintf("enc_call_ok %s %s true %d %d%%nat %d%%nat %s", coqDst(need, 0xFF, d0), coqHex([]byte(s)), call.cls, nat(call.nDst), nat(call.nSrc), coqHex(out)))
+		}
+		return
+	}
 	caps := []int{need, need - 1}
 	if level > 1 {
-		caps = append(caps, need+1, len(s), need+1+r.Rng.Intn(8))
+		caps = append(caps, need+1+r.Rng.Intn(8))
 	}
 	seenCap := map[int]bool{}
 	for _, cp := range caps {
@@ -313,6 +378,32 @@ func (c *c08) text(rs []rune, bucket string, level int) {
 	}
 }
 
+func g7clip(b []byte) []byte {
+	if len(b) > 48 {
+		return b[:48]
+	}
+	return b
+}
+
+func (c *c08) judgeDecEntry(in string, src []byte, dcls int, text []byte) func(name string, got g7Entry) {
+	r := c.r
+	return func(name string, got g7Entry) {
+		long := len(src) >= 4000 || len(text) >= 4000
+		switch {
+		case got.cls == 5:
+			r.Fail("entry/decode/"+name+"-never-returns", "an entry point of the Decoder did not return", in, got.msg, "what Bytes returns")
+		case got.cls == 2:
+			r.Fail("entry/decode/"+name+"-panics", "an entry point of the Decoder panicked", in, got.msg, "what Bytes returns")
+		case dcls == 1 && got.cls == 0 && len(src) > 0:
+			r.Fail("entry/decode/"+name+"-accepts-what-Bytes-refuses", "a value where Bytes returns an error", in, fmt.Sprintf("%q", got.out), "error")
+		case dcls == 0 && got.cls == 1 && !long:
+			r.Fail("entry/decode/"+name+"-fails-where-Bytes-succeeds", "an error where Bytes returns a text", in, got.msg, fmt.Sprintf("%q", text))
+		case dcls == 0 && got.cls == 0 && !bytes.Equal(got.out, text):
+			r.Fail("entry/decode/"+name+"-differs-from-Bytes", "another text than Bytes for the same octets", in, fmt.Sprintf("%q", got.out), fmt.Sprintf("%q", text))
+		}
+	}
+}
+
 func capBucket(cp, need int) string {
 	switch {
 	case cp < need:
@@ -337,6 +428,10 @@ func (c *c08) octets(src []byte, bucket string, emit bool) {
 	if cls == 2 {
 		r.Fail("decode/panic", "Decoder.Bytes panicked on arbitrary octets", in, "panic", "a value or an error")
 	}
+	if cls == 5 {
+		r.Fail("decode/never-returns", "Decoder.Bytes did not return on arbitrary octets", in, "no return", "a value or an error")
+		return
+	}
 	if cls == 0 && !utf8.ValidString(string(rs)) {
 		r.Fail("decode/cuts-inside-character", "decoder output is not valid UTF-8", in, string(rs), "valid UTF-8")
 	}
@@ -360,7 +455,68 @@ func (c *c08) octets(src []byte, bucket string, emit bool) {
 			}
 			_ = out
 		}
+		if c.xl > 0 {
+			c.xfDec(src, cls, []byte(string(rs)), in, c.xl)
+		}
+		if c.ent {
+			text := []byte(string(rs))
+			c.entries("dec", src, g7Entry{cls, text, ""}, in, true, c.judgeDecEntry(in, src, cls, text))
+		}
 	}
+}
+
+func (c *c08) octetsX(src []byte, bucket string, xl int, ent bool) {
+	c.xl, c.ent = xl, ent
+	c.octets(src, bucket, true)
+	c.xl, c.ent = 0, false
+}
+
+// raw runs source octets that need not be UTF-8 through the encoder: Go's range yields U+FFFD for every
+// octet that does not start a well-formed sequence, U+FFFD is not a GSM 03.38 character, so the answer
+// must be an error from every entry point, and the detector must say no.
+func (c *c08) raw(src []byte, bucket string) {
+	r := c.r
+	key := "raw/" + string(src)
+	if c.seen[key] {
+		return
+	}
+	c.seen[key] = true
+	s := string(src)
+	in := fmt.Sprintf("source octets %x", src)
+	e := g7Encode(s)
+	valid := coding.GSM7BitCoding.Validate(s)
+	r.Count(key, true, bucket)
+	wantErr := !utf8.Valid(src)
+	if !wantErr {
+		if _, ok := stdTextSeptets([]rune(s)); !ok {
+			wantErr = true
+		}
+	}
+	switch {
+	case e.cls == 2:
+		r.Fail("encode/panic", "Encoder.Bytes panicked", in, e.msg, "a value or an error")
+	case e.cls == 5:
+		r.Fail("encode/never-returns", "Encoder.Bytes did not return", in, e.msg, "a value or an error")
+		return
+	case wantErr && e.cls != 1:
+		r.Fail("encode/invalid-utf8", "source octets that are not UTF-8 text of GSM 03.38 characters must be refused with an error", in, fmt.Sprintf("class=%d octets %x", e.cls, e.out), "error")
+	}
+	if valid != (e.cls == 0) {
+		r.Fail("detector/disagrees-with-encoder", "GSM7BitCoding.Validate and the encoder disagree", in,
+			fmt.Sprintf("Validate=%v encoder class=%d", valid, e.cls), "Validate true exactly when the encoder accepts")
+	}
+	r.Case("raw "+in, fmt.Sprintf("enc_entry_ok %s %d %s && Bool.eqb (validate (utf8_dec %s)) %s", coqHex(src), e.cls, coqHex(e.out), coqHex(src), coqBool(valid)))
+	c.xfEnc(s, e, in, 2)
+	c.entries("enc", src, g7Entry{e.cls, e.out, e.msg}, in, true, func(name string, got g7Entry) {
+		switch {
+		case got.cls == 5:
+			r.Fail("entry/encode/"+name+"-never-returns", "an entry point of the Encoder did not return", in, got.msg, "what Bytes returns")
+		case got.cls == 2:
+			r.Fail("entry/encode/"+name+"-panics", "an entry point of the Encoder panicked", in, got.msg, "what Bytes returns")
+		case got.cls != e.cls || !bytes.Equal(got.out, e.out):
+			r.Fail("entry/encode/"+name+"-differs-from-Bytes", "another answer than Bytes for the same source octets", in, fmt.Sprintf("class=%d %x", got.cls, got.out), fmt.Sprintf("class=%d %x", e.cls, e.out))
+		}
+	})
 }
 
 func corrC08(r *Run) {
@@ -458,7 +614,7 @@ func corrC08(r *Run) {
 		"abc€", "1234567", "12345678", "12345[6]", "^{}\\[~]|€", "\r", "\r\r", "\r\r\r\r\r\r\r\r", "[[[[", "[[[\r\r",
 		"of the printing and typesetting", "1234567\r", "@", "@@@@@@@@", "abcdefg@", "àààààààà", "Ç", "ç"}
 	for _, s := range corpus {
-		c.text([]rune(s), "corpus", 2)
+		c.textX([]rune(s), "corpus", 2, 3, true)
 	}
 
 	// ---- 3. all strings of length <= 3 over a 12-symbol alphabet
@@ -488,7 +644,7 @@ func corrC08(r *Run) {
 				if (x == '\r' || y == '\r' || x == 0x20AC || y == '[') && p%3 == 0 {
 					lvl = 2
 				}
-				c.text(t, "residue sweep", lvl)
+				c.textX(t, "residue sweep", lvl, 2*b2i(lvl == 2 && (p+int(x)+int(y))%4 == 0), lvl == 2 && (p+int(x))%5 == 0)
 			}
 		}
 	}
@@ -510,7 +666,7 @@ func corrC08(r *Run) {
 					t = append(t, filler[i%len(filler)])
 				}
 				t = append(t, y, '\r')
-				c.text(t, "8k-1 / 8k / 8k+1 septets ending in CR", 2)
+				c.textX(t, "8k-1 / 8k / 8k+1 septets ending in CR", 2, 2*b2i((k+d)%2 == 0), k <= 2 || (k+d)%3 == 0)
 			}
 		}
 	}
@@ -645,23 +801,42 @@ func corrC08(r *Run) {
 			t[r.Rng.Intn(ln)] = foreign[r.Rng.Intn(len(foreign))]
 			bucket = "random with one foreign character"
 		}
-		c.text(t, bucket, 2)
+		c.textX(t, bucket, 2, 2*b2i(i%4 == 1 || ln > 200), i%3 == 0 || ln > 200)
 	}
-	// invalid UTF-8 is not a text; it must still give an error, not a panic
-	for _, s := range []string{"\xff", "a\xc3", "\xed\xa0\x80", strings.Repeat("a", 7) + "\x80"} {
-		e := g7Encode(s)
-		r.Count("bad/"+s, true, "invalid UTF-8")
-		if e.cls != 1 {
-			r.Fail("encode/invalid-utf8", "invalid UTF-8 must be refused with an error", fmt.Sprintf("bytes %x", s), fmt.Sprintf("class=%d", e.cls), "error")
+	// ---- 5b. source octets that are not (or only just) UTF-8: every ill-formed shape of the Unicode standard's
+	//      table 3-7 (lone continuation, truncated 2/3/4-octet sequence, overlong, surrogate, beyond U+10FFFF,
+	//      0xC0/0xC1/0xF5..0xFF), alone, after 0..8 ordinary characters, and before one; and well-formed
+	//      neighbours of each (they decode to a foreign character or, for the euro sign, to a GSM character)
+	shapes := []string{"\x80", "\xbf", "\xc0\x80", "\xc1\xbf", "\xc2", "\xc2\x41", "\xdf", "\xe0\x80\x80", "\xe0\x9f\xbf", "\xe0\xa0", "\xe2\x82", "\xe2",
+		"\xe2\x82\x41", "\xed\xa0\x80", "\xed\xbf\xbf", "\xef\xbf", "\xf0\x80\x80\x80", "\xf0\x8f\xbf\xbf", "\xf0\x90\x80", "\xf0\x9f\x98", "\xf4\x90\x80\x80",
+		"\xf5\x80\x80\x80", "\xf8\x88\x80\x80\x80", "\xfe", "\xff", "\xe2\x82\xac", "\xe2\x82\xad", "\xc2\xa3", "\xc2\xa0", "\xce\x94", "\xef\xbf\xbd", "\xf0\x9f\x98\x80"}
+	for i, sh := range shapes {
+		c.raw([]byte(sh), "source octets: ill-formed UTF-8 shapes and well-formed neighbours")
+		for p := 1; p <= 8; p++ {
+			if r.Quick && (p+i)%4 != 0 {
+				continue
+			}
+			c.raw([]byte(string(filler[:p])+sh), "source octets: ill-formed UTF-8 shapes and well-formed neighbours")
 		}
+		c.raw([]byte(sh+"a"), "source octets: ill-formed UTF-8 shapes and well-formed neighbours")
+	}
+	for i := 0; i < r.N(40, 600); i++ {
+		ln := 1 + r.Rng.Intn(12)
+		b := r.Rng.Bytes(ln)
+		for j := range b {
+			if r.Rng.Intn(3) > 0 {
+				b[j] = byte(0x20 + r.Rng.Intn(0x5F))
+			}
+		}
+		c.raw(b, "source octets: random, mostly ASCII")
 	}
 
 	// ---- 6. arbitrary octets for the decoder
 	for b := 0; b < 256; b++ {
-		c.octets([]byte{byte(b)}, "every single octet", true)
+		c.octetsX([]byte{byte(b)}, "every single octet", 2*b2i(b%16 == int(r.Seed%16) || b == 0x1B || b == 0x0D || b == 0x80), b%32 == int(r.Seed%32))
 	}
-	for _, s := range [][]byte{{0x1B}, {0x1B, 0x80}, {0x1B, 0x0D}, {0x9B, 0x06}, {0x0D}, {0x1A, 0x0D}, {}} {
-		c.octets(s, "corpus octets", true)
+	for _, s := range [][]byte{{0x1B}, {0x1B, 0x80}, {0x1B, 0x0D}, {0x9B, 0x06}, {0x0D}, {0x1A, 0x0D}, {}, {0x31, 0xD9, 0x8C, 0x56, 0xB3, 0xDD, 0x1A}, {0x0D, 0x00, 0x00, 0x00, 0x00, 0x00, 0x1A}} {
+		c.octetsX(s, "corpus octets", 3, true)
 	}
 	no := r.N(500, 8000)
 	for i := 0; i < no; i++ {
@@ -694,7 +869,10 @@ func corrC08(r *Run) {
 			src = append([]byte{}, e.out...)
 			src[r.Rng.Intn(len(src))] ^= 1 << uint(r.Rng.Intn(8))
 		}
-		c.octets(src, "random octets", true)
+		c.octetsX(src, "random octets", 2*b2i(i%5 == 0), i%6 == 0)
+	}
+	if n := atomic.LoadInt32(&g7HungCount); n > 0 {
+		r.Notes = append(r.Notes, fmt.Sprintf("%d entry point(s) did not return within %v and were not called again", n, g7Patience))
 	}
 	r.Notes = append(r.Notes, fmt.Sprintf("texts in the ambiguous class (n%%8==0, ends in CR): %d; model cases: %d", c.nAmb, len(r.caseExprs)))
 }
